@@ -186,6 +186,12 @@ def run(tier):
     t2 = monitors.run_models(rep, [m for m in ms if m.name.startswith("lost-peer-while")], 10, dedup_depth_plain=None, time_cap=300 if tier == "thorough" else 60)
     for k in tot:
         tot[k] = max(tot[k], t2[k]) if k == "max_depth" else tot[k] + t2[k]
+    # the reconnect policy for SCTP peers (dialled with connectx in a branch of its own)
+    t3 = monitors.run_models(rep, monitors.sctp_copies(ms, ("persistent-always=False-wait=2-start=ok", "persistent-always=False-wait=2-start=refused",
+                                                            "persistent-always=False-wait=2-start=inprogress", "persistent-always=True-wait=2-start=ok",
+                                                            "established-then-closed-by-the-node-always=False", "dpr-while-awaiting-DWA")),
+                             depth - 1, time_cap=600 if tier == "thorough" else 40)
+    monitors.merge_tot(tot, t3)
     rep.cov.update({"states": tot["states"], "transitions": tot["transitions"], "traces_validated_against_impl": tot["transitions"] + tot["plain_transitions"] + sched,
                     "max_depth": tot["max_depth"], "states_without_dedup": tot["plain_states"],
                     "explanation": "BFS over histories of dial outcomes {ok, refused, in progress -> ok/fail}, CEA {2001, rejected, none -> timeout}, DPR, eof, "
